@@ -64,6 +64,11 @@ CHECKS = {
     technique='exhaustive enumeration of emitted byte strings (C01 value universe x 6 versions; every response of a real session+engine over a history set covering all operations, error classes, rejections and failures x 6 versions) judged by an independent strict TTLV parser and envelope rules',
     text='(i) Every successful encoding of the C01 value universe (presence lattice and single-field sweeps of 155 classes under KMIP 1.0-2.0, about 14k byte strings) must be accepted by the independent strict parser (3-byte tag in 42xxxx/54xxxx, known type, fixed lengths for fixed-size types, zero padding to 8, structure length equal to its children, no trailing bytes) and re-encode canonically to the same bytes. (ii) For each version a real session+engine answers an ~85-request history: every operation succeeding, every error class (not found, permission, invalid field, illegal operation, wrong state, cryptographic failure, general failure, key format/compression, unsupported operation, index), batches with stop/continue, request-level rejections (Undo, asynchronous, stale/future timestamp, missing batch ID), undecodable frames, certificate/identity failures and oversize replacement. Every response must be strict TTLV and follow the envelope: header with exactly one protocol version, timestamp and batch count, count equal to the number (>= 1) of batch items, each item with a result status and with reason and message exactly when the status is not Success; the header version echoes the request whenever the library\'s own decoder accepts the frame and the version is supported.',
     note='The independent parser is the trusted reading of the TTLV definition. BigInteger length minimality is not demanded. For frames the server cannot decode and for certificate-stage failures only a supported version is demanded in the header. The other server checks (C08, C12, C13, C16) parse every response with the same strict parser as well.'),
+ 'C17': dict(
+    category='fault_enumeration', design_ref='DESIGN.md 4/C17',
+    technique='complete enumeration of the configuration product at the session seam (certificate shape x EKU x client-auth flag x plugin configuration x scripted SLUGS HTTP behaviours x request) on a real KmipSession with a spy in front of a real engine, against a reference of when an identity is established',
+    text='The complete product of 10 certificate shapes (absent; 0, 1, 2 common names x EKU absent / serverAuth / clientAuth), enable_tls_client_auth on/off, 54 (quick) / 175 (thorough) plugin configurations (none, empty, disabled block, unsupported plugin, missing URL, wrong-case flag, one SLUGS block with each of 11 scripted HTTP behaviours - 200 with groups [], [g], several, missing key; user 404; groups 404; connection error on the first/second call; non-JSON body; HTTP 500 on either lookup - two and three blocks in all orders, enabled/disabled/unsupported mixes) and 3-5 requests is run through the real _handle_message_loop. The engine must be entered exactly once with exactly the established (common name, groups) identity when the reference says an identity is established, and never otherwise; then the answer must be AUTHENTICATION_NOT_SUCCESSFUL and the raw database unchanged.',
+    note='SLUGS is replaced by scripted answers of the requests module inside auth/slugs.py; certificate validation by the ssl module itself is outside the session code. A SLUGS service is taken to vouch only with HTTP 200 on both lookups.'),
 }
 
 NOT_YET = {}
